@@ -157,6 +157,8 @@ func loadProgram(repo, verif string, spec *Spec, syntaxOnly bool) (*loaded, erro
 				rel = "."
 			}
 			byDir[rel] = p
+		} else {
+			byDir[p.PkgPath] = p
 		}
 	})
 	if syntaxOnly {
@@ -166,6 +168,9 @@ func loadProgram(repo, verif string, spec *Spec, syntaxOnly bool) (*loaded, erro
 	prog.Build()
 	ld := &loaded{prog: prog, pkgs: map[string]*ssa.Package{}, coap: map[*ssa.Package]bool{}, names: names, byDir: byDir}
 	for _, p := range prog.AllPackages() {
+		if contains(spec.Sched, p.Pkg.Path()) {
+			ld.coap[p] = true // dependency instrumented for schedule replay: its synchronisation is visible
+		}
 		if strings.HasPrefix(p.Pkg.Path(), modulePath) {
 			ld.coap[p] = true
 			rel := strings.TrimPrefix(strings.TrimPrefix(p.Pkg.Path(), modulePath), "/")
